@@ -65,21 +65,34 @@ impl<T> View for Slab<T> {
     uninterp spec fn view(&self) -> Map<usize, T>;
 }
 
-#[verifier::external_body]
 #[verifier::reject_recursive_types(T)]
-pub struct VacantEntry<'a, T> { s: &'a mut Vec<T> }
+pub struct VacantEntry<'a, T> { pub slab: &'a mut Slab<T>, pub k: Ghost<usize> }
 
 impl<'a, T> VacantEntry<'a, T> {
-    pub uninterp spec fn spec_key(&self) -> usize;
-    pub uninterp spec fn slab_view(&self) -> Map<usize, T>;
-
     #[verifier::external_body]
     pub fn key(&self) -> (r: usize)
-        ensures r == self.spec_key(),
+        ensures r == self.k@,
+    { unimplemented!() }
+
+    #[verifier::external_body]
+    pub fn insert(self, v: T)
+        ensures final(self.slab)@ == old(self.slab)@.insert(self.k@, v),
     { unimplemented!() }
 }
 
 impl<T> Slab<T> {
+    /// the key `vacant_entry` would hand out next (never an occupied one)
+    pub uninterp spec fn spec_vacant_key(&self) -> usize;
+
+    #[verifier::external_body]
+    pub fn vacant_entry(&mut self) -> (e: VacantEntry<'_, T>)
+        ensures
+            *e.slab == *old(self),
+            *final(self) == *final(e.slab),
+            e.k@ == old(self).spec_vacant_key(),
+            !old(self)@.contains_key(e.k@),
+    { unimplemented!() }
+
     #[verifier::external_body]
     pub fn try_remove(&mut self, k: usize) -> (r: Option<T>)
         ensures
